@@ -281,6 +281,49 @@ theorem c16_nil_normalising_counterexample :
     consumeProcessor "*T" isErr (baseConvertNilNorm typedNilErr) = .success := by
   decide
 
+/-! ### The chain is fixed at construction -/
+
+/-- One later step — another construction from the same slice (its `append` may write
+into the shared backing array), the caller overwriting or appending, `AddMiddleware` on
+ANOTHER object — leaves an existing object's chain as it is. -/
+theorem c16_step_keeps_chain (s : Life α ρ) (st : LifeStep α ρ) (i : Nat) (hi : i < s.objs.length)
+    (hst : st.addsTo i = false) : (s.step st).objs[i]? = s.objs[i]? ∧ i < (s.step st).objs.length := by
+  cases st with
+  | construct f al prov => simp [Life.step, List.getElem?_append_left hi]; omega
+  | write j m => simp [Life.step, hi]
+  | push m => simp [Life.step, hi]
+  | add j m =>
+    have hj : j ≠ i := by simpa [LifeStep.addsTo] using hst
+    simp [Life.step, hj, hi]
+
+/-- The chain of an object is a function of the argument VALUES at construction —
+`arr[:k]` as it was then, followed by the provider's list — and no sequence of later
+mutations of the caller's array, other constructions or `AddMiddleware` calls on other
+objects ever changes it; first use plays no role. -/
+theorem c16_chain_fixed_at_construction (s : Life α ρ) (f : α → ρ) (al : Bool)
+    (prov : List (Middleware α ρ)) (later : List (LifeStep α ρ))
+    (hno : ∀ st ∈ later, st.addsTo s.objs.length = false) :
+    ((s.step (.construct f al prov)).run later).objs[s.objs.length]? =
+      some (newMethod f (s.arr.take s.k ++ prov)) := by
+  have key : ∀ (steps : List (LifeStep α ρ)) (t : Life α ρ) (i : Nat), i < t.objs.length →
+      (∀ st ∈ steps, st.addsTo i = false) → (t.run steps).objs[i]? = t.objs[i]? := by
+    intro steps
+    induction steps with
+    | nil => intro t i _ _; rfl
+    | cons st tl ih =>
+      intro t i hi h
+      have h1 := c16_step_keeps_chain t st i hi (h st (by simp))
+      simp only [Life.run, List.foldl_cons] at ih ⊢
+      rw [ih (t.step st) i h1.2 (fun x hx => h x (by simp [hx])), h1.1]
+  rw [key later _ s.objs.length (by simp [Life.step]) hno]
+  simp [Life.step]
+
+/-- `AddMiddleware` on the object itself wraps the chain fixed at construction,
+whether or not the object has been used before (the model has no "first use"). -/
+theorem c16_add_after_construction (s : Life α ρ) (i : Nat) (o : Method α ρ) (m : Middleware α ρ)
+    (ho : s.objs[i]? = some o) : (s.step (.add i m)).objs[i]? = some (o.addMiddleware m) := by
+  simp [Life.step, ho]
+
 /-! ### Non-vacuity: concrete lists with n ≥ 3, rewriting and observing -/
 
 /-- Tagging behaviours over strings: `pre` appends `a<i>`, `post` appends `r<i>`. -/
